@@ -160,6 +160,21 @@ func (ex *Exec) indexFunction(f *ssa.Function, primary bool, depth int) {
 					ex.countCall(in, flat, depth)
 				}
 			}
+			if sto, ok := in.(*ssa.Store); ok && primary {
+				// named anchor of a store to a struct field: store:<field>#k (does not move when other stores are added)
+				if fa, ok := sto.Addr.(*ssa.FieldAddr); ok {
+					if pt, ok := fa.X.Type().Underlying().(*types.Pointer); ok {
+						if stt, ok := pt.Elem().Underlying().(*types.Struct); ok {
+							fnm := stt.Field(fa.Field).Name()
+							counts["storefield:"+fnm]++
+							if ex.storeName == nil {
+								ex.storeName = map[ssa.Instruction]string{}
+							}
+							ex.storeName[in] = fmt.Sprintf("store:%s#%d", fnm, counts["storefield:"+fnm])
+						}
+					}
+				}
+			}
 			if a, ok := in.(*ssa.Alloc); ok && primary && a.Comment != "" {
 				if _, dup := ex.allocs[a.Comment]; !dup {
 					ex.allocs[a.Comment] = a
